@@ -21,6 +21,7 @@ import (
 	"0chain.net/chaincore/transaction"
 	"0chain.net/core/common"
 	"0chain.net/core/datastore"
+	"0chain.net/core/encryption"
 	"github.com/0chain/common/core/util"
 )
 
@@ -194,6 +195,13 @@ func (ar *addRequest) validate(now common.Timestamp, conf *config) (err error) {
 		return errors.New("no destinations")
 	case len(ar.Destinations) > conf.MaxDestinations:
 		return errors.New("too many destinations")
+	}
+	// a transfer to something that is not a client id can never be made: the
+	// pool could then neither be triggered after its start nor deleted
+	for _, d := range ar.Destinations {
+		if d == nil || !encryption.IsHash(d.ID) {
+			return errors.New("invalid destination id")
+		}
 	}
 	return
 }
